@@ -424,6 +424,8 @@ def auto(F, s, ctx):
     if k.startswith("call:index["):
         full = t[1].get("full") or ""
         coll, idx = t[2][0], t[2][1]
+        if "RangeFull>" in full:
+            return True, "v[..] (the full range) is the whole slice: it cannot be out of bounds"
         if "RangeTo<usize>" in full or "RangeFrom<usize>" in full or "Range<usize>" in full:
             return slice_ok(F, f, bi, t, full)
         if "Index<usize>" in full or "IndexMut<usize>" in full:
